@@ -23,10 +23,10 @@ import (
 
 // fixed runs directed scenarios that reach the branches a random history meets rarely.
 func (h *harness) fixed() {
-	for i, scn := range fixedScenarios() {
+	for i, scn := range append(fixedScenarios(), boundaryScenarios()...) {
 		r, err := runScenario(scn, h.drv != nil)
 		if err != nil {
-			h.res.Note("fixed %d setup: %v", i, err)
+			h.res.Fatalf("fixed scenario %d: setup failed: %v", i, err)
 			continue
 		}
 		h.finishCase(r, scn, fmt.Sprintf("fixed/%d", i))
@@ -40,6 +40,41 @@ func tx(hash, tag uint64, d DiffSpec) TxSpec {
 
 func blockOp(num, oldest uint64, ident string, classes [][2]uint64, txs ...TxSpec) OpSpec {
 	return OpSpec{Op: "apply", U: &UpdateSpec{Kind: "B", Ident: ident, VerOk: true, Txs: txs}, Num: num, Oldest: oldest, Classes: classes}
+}
+
+// boundaryScenarios: the two ends of the uint64 block numbers.
+func boundaryScenarios() []*Scenario {
+	const top = ^uint64(0)
+	t := func(h uint64) TxSpec { return tx(h, h, DiffSpec{S: [][3]uint64{{100, h % 3, h}}}) }
+	zero := []OpSpec{ // a chain bootstrapped at block 0 (no head yet): its base would be block 2^64-1
+		blockOp(0, 0, "z0", nil, t(1)),
+		{Op: "state", Head: 0, Block: 0}, {Op: "statebi", Head: 0, Block: 0, Index: 1}, {Op: "statebi", Head: 0, Block: 0, Index: 5},
+		{Op: "lookup", Head: 0, Hash: 1},
+		blockOp(1, 0, "z1", nil, t(2)),
+		{Op: "state", Head: 0, Block: 1}, {Op: "state", Head: 1, Block: 1},
+		{Op: "apply", U: &UpdateSpec{Kind: "D", Ident: "z1", Txs: []TxSpec{t(3)}}, Num: 1, BaseTx: 1, Oldest: 0},
+		blockOp(0, 0, "z0b", nil), // new round at the inner slot 0
+		{Op: "advance", Oldest: 1}, {Op: "advance", Oldest: 0},
+		blockOp(0, 0, "z0c", nil), {Op: "advance", Oldest: 0},
+	}
+	high := []OpSpec{ // a chain reaching the last block number: tip()+1 wraps to 0
+		blockOp(top-1, top-1, "h1", nil, t(1)),
+		blockOp(top, top-1, "h2", nil, t(2)),       // extend to 2^64-1
+		blockOp(top, top-1, "h3", nil, t(3), t(4)), // new round for the tip: rejected as a gap (tip+1 = 0)
+		{Op: "apply", U: &UpdateSpec{Kind: "D", Ident: "h2", Txs: []TxSpec{t(5)}}, Num: top, BaseTx: 1, Oldest: top - 1},
+		{Op: "apply", U: &UpdateSpec{Kind: "N"}, Num: top, Oldest: top - 1, Classes: [][2]uint64{{200, 2200}}},
+		blockOp(top-1, top-1, "h4", nil), // new round at the inner slot: also a gap
+		blockOp(0, top-1, "h5", nil),     // block 0 == tip+1 on uint64, but below the oldest slot
+		{Op: "lookup", Head: top - 1, Hash: 2}, {Op: "state", Head: top - 1, Block: top},
+		{Op: "advance", Oldest: top}, {Op: "advance", Oldest: top},
+		blockOp(top, top, "h6", nil, t(6)), // single-entry chain at the last number: new round still a gap
+		{Op: "advance", Oldest: 0},         // "reverted below": drops
+		blockOp(top, top, "h7", nil), {Op: "advance", Oldest: top - 3},
+	}
+	return []*Scenario{
+		{Kind: "seq", Head: 0, Ops: zero},
+		{Kind: "seq", Head: top - 2, Ops: high, ProbeLo: top - 15},
+	}
 }
 
 func fixedScenarios() []*Scenario {
@@ -114,7 +149,7 @@ func (h *harness) concurrentRound(rng *lib.RNG, round int) {
 	base, _ := genBase(rng, nBase)
 	node, err := buildBase(rng.Bool(), base)
 	if err != nil {
-		h.res.Note("concurrent setup: %v", err)
+		h.res.Fatalf("concurrent stage: setup failed: %v", err)
 		return
 	}
 	store := preconfirmed.NewChainStorage()
@@ -153,7 +188,7 @@ func (h *harness) concurrentRound(rng *lib.RNG, round int) {
 		ops = append(ops, o)
 	}
 	var wg sync.WaitGroup
-	var views atomic.Int64
+	var views, stateReads atomic.Int64
 	readers := 6
 	for w := 0; w < readers; w++ {
 		wg.Add(1)
@@ -180,16 +215,31 @@ func (h *harness) concurrentRound(rng *lib.RNG, round int) {
 				}
 				if v.Length() > 0 {
 					if rr.Chance(1, 4) {
-						_, _, _ = lib.Try(func() error {
-							sr, _, err := v.PreConfirmedStateAt(v.Head().Block.Number, node.bc)
-							if err == nil {
-								_ = reads(sr)
+						// the diffs of this stage are arbitrary (no overlay oracle applies); what must hold
+						// for any diffs: the state at a block and the state before index len(txs) of that
+						// block read the same, and nothing panics
+						if err, panicked, stack := lib.Try(func() error {
+							tip := v.Head()
+							sr, _, e1 := v.PreConfirmedStateAt(tip.Block.Number, node.bc)
+							full, _, e2 := v.PreConfirmedStateBeforeIndexAt(tip.Block.Number, uint(len(tip.Block.Transactions)), node.bc)
+							if (e1 == nil) != (e2 == nil) {
+								violate("concurrent-state-at-and-before-last-index-disagree", fmt.Sprintf("PreConfirmedStateAt: %v, BeforeIndexAt(len): %v", e1, e2))
+							} else if e1 == nil {
+								if a, b := reads(sr), reads(full); a != b {
+									violate("concurrent-state-at-and-before-last-index-disagree", fmt.Sprintf("block %d:\n at    : %s\n before: %s", tip.Block.Number, a, b))
+								}
+								stateReads.Add(1)
 							}
 							return nil
-						})
+						}); panicked {
+							violate("concurrent-state-read-panics", fmt.Sprintf("a state read through a view panicked: %v\n%s", err, clip(stack)))
+						}
 					}
 					if rr.Chance(1, 3) {
-						_, _ = v.TransactionByHash(fe(lib.Pick(rr, uniHashes)))
+						hsh := lib.Pick(rr, uniHashes)
+						if msg := lookupOracle(&v, hsh); msg != "" {
+							violate("concurrent-"+msg, fmt.Sprintf("lookup of hash %d in the view for head %d", hsh, hd))
+						}
 					}
 					if len(keep) < 64 || rr.Chance(1, 8) {
 						hv := held{v: v, hash: deepHash(&v), b: hd + 1}
@@ -223,7 +273,9 @@ func (h *harness) concurrentRound(rng *lib.RNG, round int) {
 					_, _ = store.ApplyUpdate(o.U.wire(o.Num), o.Num, o.BaseTx, o.Oldest, classMap(o.Classes))
 					return nil
 				})
-				if panicked {
+				if panicked && o.U != nil && o.U.Malform != "" {
+					violate("applyupdate-panics-on-malformed-update", fmt.Sprintf("ApplyUpdate with an update whose receipts / state diffs are %s panics in the writer: %v", o.U.Malform, err))
+				} else if panicked {
 					violate("concurrent-writer-panics", fmt.Sprint(err))
 				}
 			case "advance":
@@ -241,6 +293,7 @@ func (h *harness) concurrentRound(rng *lib.RNG, round int) {
 	}
 	h.res.HitN("concurrent-writer-ops", len(ops))
 	h.res.HitN("concurrent-reader-views", int(views.Load()))
+	h.res.HitN("concurrent-state-reads-cross-checked", int(stateReads.Load()))
 	h.res.Case(fmt.Sprintf("conc/%d/%d", h.f.Seed, round), true)
 	for _, f := range found {
 		h.res.Violate(lib.Violation{Sig: f.sig, What: f.what,
@@ -279,7 +332,7 @@ func validateView(v *preconfirmed.ChainReader, b uint64) string {
 func (h *harness) runChild(bin string, extraEnv []string, tag string) {
 	out, err := os.CreateTemp("", "c20-conc-*.json")
 	if err != nil {
-		h.res.Note("concurrent stage: %v", err)
+		h.res.Fatalf("concurrent stage: cannot create the child result file: %v", err)
 		return
 	}
 	out.Close()
@@ -350,7 +403,7 @@ func raceExcerpt(s string) string {
 func (h *harness) concurrentChild() {
 	self, err := os.Executable()
 	if err != nil {
-		h.res.Note("concurrent stage: %v", err)
+		h.res.Fatalf("concurrent stage: cannot locate own executable: %v", err)
 		return
 	}
 	h.runChild(self, nil, "")
@@ -360,7 +413,7 @@ func (h *harness) concurrentChild() {
 	// thorough tier: the same stage again, built with the race detector
 	bin, err := buildRaceTwin()
 	if err != nil {
-		h.res.Note("race twin not built (concurrent stage ran without -race only): %v", err)
+		h.res.Fatalf("thorough tier: the -race twin of the concurrent stages could not be built: %v", err)
 		return
 	}
 	h.runChild(bin, []string{"GORACE=halt_on_error=1 exitcode=66"}, "race:")
@@ -443,7 +496,7 @@ func (h *harness) exhaustive(depth int) {
 		}
 		r, err := runScenario(scn, w.drv != nil)
 		if err != nil {
-			w.res.Note("exhaustive setup: %v", err)
+			w.res.Fatalf("exhaustive stage: setup failed: %v", err)
 			return
 		}
 		w.compare(r, scn)
@@ -454,4 +507,61 @@ func (h *harness) exhaustive(depth int) {
 		}
 	})
 	h.res.HitN(fmt.Sprintf("exhaustive-sequences-depth-%d", depth), len(seqs))
+}
+
+// lookupOracle: TransactionByHash / ReceiptByHash of a view against the view's own entries (a hit
+// is an item of the view with that hash, a miss means the view holds none). "" if right.
+func lookupOracle(v *preconfirmed.ChainReader, hash uint64) string {
+	h := fe(hash)
+	anyTx, anyRc := false, false
+	for e := range v.NewestFirst() {
+		for _, x := range e.Block.Transactions {
+			if x != nil && x.Hash().Equal(h) {
+				anyTx = true
+			}
+		}
+		for _, x := range e.Block.Receipts {
+			if x != nil && x.TransactionHash.Equal(h) {
+				anyRc = true
+			}
+		}
+	}
+	tx, err := v.TransactionByHash(h)
+	switch {
+	case err == nil:
+		ok := false
+		for e := range v.NewestFirst() {
+			for _, x := range e.Block.Transactions {
+				if x == tx {
+					ok = true
+				}
+			}
+		}
+		if !ok || !tx.Hash().Equal(h) {
+			return "tx-lookup-returns-item-not-of-the-view"
+		}
+	case anyTx:
+		return "tx-lookup-misses-item-of-the-view"
+	}
+	rc, num, err := v.ReceiptByHash(h)
+	switch {
+	case err == nil:
+		ok := false
+		for e := range v.NewestFirst() {
+			if e.Block.Number != num {
+				continue
+			}
+			for _, x := range e.Block.Receipts {
+				if x == rc {
+					ok = true
+				}
+			}
+		}
+		if !ok || !rc.TransactionHash.Equal(h) {
+			return "receipt-lookup-returns-item-not-of-the-view"
+		}
+	case anyRc:
+		return "receipt-lookup-misses-item-of-the-view"
+	}
+	return ""
 }
